@@ -414,6 +414,19 @@ func (w *World) NewLock(actor string, override bool) filesystem.ILock {
 	return filesystem.NewGenericRemoteLockFile(w.VFS(actor), w.LockID, w.Dir, override)
 }
 
+// NewLockSpelt is NewLock with another spelling of the lock id: the library trims blanks around the id when it forms the
+// path of the lock directory, so ids which differ by surrounding blanks only name the same lock.
+func (w *World) NewLockSpelt(actor string, override bool, spelling int) filesystem.ILock {
+	id := w.LockID
+	switch spelling % 3 {
+	case 1:
+		id += "\n"
+	case 2:
+		id = " " + id + "  "
+	}
+	return filesystem.NewGenericRemoteLockFile(w.VFS(actor), id, w.Dir, override)
+}
+
 func (w *World) isLockPath(p string) bool {
 	return filepath.Clean(p) == w.LockPath
 }
